@@ -10,13 +10,13 @@ P = {
          "Generated envelope trees built along three routes and stepped through generated histories; every element's digest is recomputed bottom-up by the harness (own SHA-256 + own dCBOR) and must equal the library's at every position, in the structure and in the emitted bytes; histories include refused operations (non-assertions offered as assertions, forged encrypted subjects) and 8-20 extra nesting levels. Exploration: held on everything generated, no proof.",
          "sha2 crate; bc-components used only to make/open ciphertext and compressed blobs; depth <= 8", "§3 C01"),
  "C02": ("property-based testing: metamorphic relation (obscure => same digests at every surviving position) + reference model",
-         "Generated envelopes x generated target sets (present, absent, multi-position) x both modes x three actions plus the whole-envelope forms and chains; the result is walked position-wise against the original and against the model; in-library assert! panics count as violations. The stated consequence is checked too: an envelope signed by 2-3 keys (with / without metadata) is obscured - often at one element inside a signature assertion - and every signer whose assertion is untouched must still verify.",
+         "Generated envelopes x generated target sets (present, absent, multi-position) x both modes x three actions plus the whole-envelope forms and chains; the result is walked position-wise against the original and against the model; in-library assert! panics count as violations. The stated consequence is checked too: an envelope signed by 2-3 keys (with / without metadata) is obscured - often at one element inside a signature assertion - and every signer whose assertion is untouched must still verify. Likewise proofs (made from either envelope, confirmed by the other) and recipients (obscuring one sealed message leaves the other recipients able to open).",
          "same trusted base as C01", "§3 C02"),
  "C03": ("property-based testing against a reference model of the visibility rule + byte-level residue scan",
          "The model computes which elements must be hidden/visible from the stated rule; result must agree position-wise; serialised bytes are parsed by the harness parser and scanned for unique marker leaves of hidden elements; unelide accepts iff digests equal.",
          "marker leaves >= 11 bytes: chance match negligible", "§3 C03"),
  "C04": ("stateful property-based testing (generated operation histories) with a grammar-recogniser invariant after every step",
-         "After every step of a generated history the emitted bytes must pass the harness's strict dCBOR parser and envelope-grammar recogniser (arity, slot validity, strictly ascending unique digests, digest sizes) and recomputed digests must equal the library's. Histories include operations that must be refused: non-assertions offered as assertions, and encrypted / compressed elements imported from bc-components values that carry no usable digest declaration.",
+         "After every step of a generated history the emitted bytes must pass the harness's strict dCBOR parser and envelope-grammar recogniser (arity, slot validity, strictly ascending unique digests, digest sizes) and recomputed digests must equal the library's. Histories include operations that must be refused: non-assertions offered as assertions, and encrypted / compressed elements imported from bc-components values that carry no usable digest declaration. Also array adds that name an assertion twice, replacement by a same-digest rendition, and opening imported elements whose content is a non-canonical node.",
          "recogniser written from spec §3; same trusted base as C01", "§3 C04"),
  "C05": ("property-based round-trip testing with an independent encoder as second oracle",
          "encode -> decode -> position-wise identical and byte-identical re-encoding, through CBOR data, tagged CBOR and UR strings, for every leaf type and obscuration pattern; un-obscured bytes are also pinned to the harness encoder's prediction. The round trip is repeated after the same thread was handed 320 inputs the decoder refuses (decoding depends on the bytes alone).",
@@ -25,19 +25,19 @@ P = {
          "Valid encodings, structural mutants, byte mutants and random bytes are decoded; the decoder must not panic, and whatever it accepts must re-encode to the input (modulo #6.24) and be accepted by the harness recogniser for exactly the rejection reasons the property lists.",
          "nesting <= 64; recogniser has no opinion on blobs' interior", "§3 C06"),
  "C07": ("property-based testing: exhaustive permutation differential for <=5 assertions, algebraic laws (idempotence, inverse), receiver immutability, equal-value collections",
-         "All k! insertion orders (k<=5) through every add API must give one byte string; add-duplicate, add-then-remove, wrap/unwrap laws; receiver snapshot before/after every operation; collections built in different insertion orders and hashers. Sets (HashSet, dcbor::Set) are pinned to the array of their elements in ascending encoded order, incl. equal-length strings that differ only after 30 common bytes.",
+         "All k! insertion orders (k<=5) through every add API must give one byte string; add-duplicate, add-then-remove, wrap/unwrap laws; receiver snapshot before/after every operation; collections built in different insertion orders and hashers. Sets (HashSet, dcbor::Set) are pinned to the array of their elements in ascending encoded order, incl. equal-length strings that differ only after 30 common bytes. The add / remove laws are repeated on an envelope whose subject is a node; replacing an assertion by an equal one or by a rendition of itself is pinned to the envelope built with that rendition.",
          "HashSet/HashMap iteration orders sampled via fresh hashers", "§3 C07"),
  "C08": ("property-based testing with fault injection: single-field/bit tampering and mis-declared digests of encrypted elements",
          "Round trip with right key, failure with wrong key, and every generated single tampering (ciphertext, nonce, tag, declared digest, truncation/extension) or key-holder mis-declaration must give Err, never an envelope, never a panic. Malformed digest declarations made by a key holder (untagged, raw, 31 bytes, trailing byte, wrong tag, application data) must never decrypt to an envelope, through conversion or decoding.",
          "ChaCha20-Poly1305 forgery probability negligible", "§3 C08"),
  "C09": ("property-based testing over signer sets, schemes, post-signing transformations, key lists/thresholds, plus adversarially constructed 'signed' assertions",
-         "Oracle: has_signature_from(k) == (k in S) for every pool key after every transformation; threshold == |L∩S|>=t; metadata only when covered by the same key's outer signature. Also with the envelope as the subject of an outer node, with one element inside another signer's assertion obscured, and with signed assertions that carry a note or a salt.",
+         "Oracle: has_signature_from(k) == (k in S) for every pool key after every transformation; threshold == |L∩S|>=t; metadata only when covered by the same key's outer signature. Also with the envelope as the subject of an outer node, with one element inside another signer's assertion obscured, and with signed assertions that carry a note or a salt. The predicate 'signed' itself obscured; one key signing twice does not count twice towards a threshold.",
          "signature schemes unforgeable; keys from a fixed pool", "§3 C09"),
  "C10": ("property-based testing over recipient lists (X25519/ML-KEM, duplicates) with listed/unlisted keys; seal/unseal scheme matrix",
          "Each listed key opens to exactly the original subject; unlisted keys fail; wrapped and seal forms identical to the original; add_recipient keeps earlier recipients; wrong sender/recipient fail.",
          "KEM/AEAD secure", "§3 C10"),
  "C11": ("property-based testing with exhaustive subset enumeration per generated SSKR policy against a quorum-arithmetic model",
-         "For every generated policy, every non-empty subset of the shares is joined; Ok iff the model's quorum holds and then identical to the original; mixed splits are predicted exactly (Ok iff a split whose key opens the first envelope has a quorum); groups of up to 16 members with subsets sampled around the quorum.",
+         "For every generated policy, every non-empty subset of the shares is joined; Ok iff the model's quorum holds and then identical to the original; mixed splits are predicted exactly (Ok iff a split whose key opens the first envelope has a quorum); groups of up to 16 members with subsets sampled around the quorum. Share envelopes merged by their holders or with decorated share assertions follow the same quorum rule.",
          "sskr/bc-shamir correct for the split itself", "§3 C11"),
  "C12": ("property-based testing against a set-membership model, with mutation of proofs for soundness and a structural minimality predicate",
          "proof is Some iff targets ⊆ model digests; produced proofs confirm from the bare root; confirm(T,P') == model evaluation for arbitrary/mutated P'; everything off the root-to-target paths and every innermost target is a 34-byte elided digest.",
@@ -49,19 +49,19 @@ P = {
          "is_equivalent_to <=> model digests equal; is_identical_to/== <=> equivalent and same obscuration signature; reflexive/symmetric/transitive over all pairs and triples of a family.",
          "same trusted base as C01", "§3 C14"),
  "C15": ("property-based testing against an independent traversal/query model",
-         "walk (both modes), elements_count, digests(l), accessors and predicate lookups are compared with an independent recursion over case(); typed extraction must return the stored value or Err. Both extraction routes are judged: extract_* (TryFrom<CBOR>) and try_as / try_*_for_predicate (TryFrom<Envelope>).",
+         "walk (both modes), elements_count, digests(l), accessors and predicate lookups are compared with an independent recursion over case(); typed extraction must return the stored value or Err. Both extraction routes are judged: extract_* (TryFrom<CBOR>) and try_as / try_*_for_predicate (TryFrom<Envelope>). The structural extraction types (Envelope, KnownValue, Digest, Assertion) are judged too.",
          "tree-mode levels as pinned by format_tests", "§3 C15"),
  "C16": ("property-based robustness testing + coverage-guided fuzzing: operation table x generated/decoded envelopes under catch_unwind",
-         "About a hundred public entry points applied to library-built, decorated, obscured and adversarially decoded envelopes with generated arguments; any panic is a violation.",
+         "About a hundred public entry points applied to library-built, decorated, obscured and adversarially decoded envelopes with generated arguments; any panic is a violation. The table was completed against a scan of the crate's pub fn names (Display / Debug, generic elide forms, *_opt / *_using variants, Attachments container).",
          "documented panicking contracts excluded (DESIGN §1.3)", "§3 C16"),
  "C17": ("property-based testing with statistical decorrelation check",
-         "exactly one new 'salt' assertion with length in the documented range; removing it restores the bytes; salted assertion shape; independent saltings pairwise distinct. Salted adds of an already elided / compressed / encrypted assertion must salt it as well.",
+         "exactly one new 'salt' assertion with length in the documented range; removing it restores the bytes; salted assertion shape; independent saltings pairwise distinct. Salted adds of an already elided / compressed / encrypted assertion must salt it as well. A salted batch gives every assertion its own salt, sized for that assertion.",
          "OS RNG not broken", "§3 C17"),
  "C18": ("property-based round-trip testing with malformed-variant injection",
          "Expression/Request/Response/Event -> envelope -> parse equals the value directly and through bytes; documented shape; every malformed variant is rejected.",
          "dcbor Date fixed points only", "§3 C18"),
  "C19": ("property-based testing against a multiset/filter model with malformed-attachment injection",
-         "attachments(), filters, single-result errors, payload/vendor/conformsTo, Attachments container and type checks equal the model's answers; malformed attachments are reported invalid by the unfiltered query and by every filter combination (matching the malformed one or not); a type whose 'isA' assertion carries a salt or a note is reported like any other.",
+         "attachments(), filters, single-result errors, payload/vendor/conformsTo, Attachments container and type checks equal the model's answers; malformed attachments are reported invalid by the unfiltered query and by every filter combination (matching the malformed one or not); a type whose 'isA' assertion carries a salt or a note is reported like any other. The Attachments container written onto an envelope that already holds its attachments adds nothing twice.",
          "", "§3 C19"),
  "C20": ("generated multi-thread programs run in fresh child processes with solo-reference oracle (weak: schedules sampled, not enumerated)",
          "Every thread joins within the watchdog (deadlock = all threads asleep with no CPU in two /proc samples), no panic / poisoned lock (programs may contain a leaf on which a summarizer panics), each result equals the text the call returns alone in one of the registry states reachable for that thread (5 reference child processes), a thread's own registrations are never lost; after a closing barrier (every registration of the program has returned) each thread repeats a formatting call, which must give the text of exactly that final registry state; multithreaded build agrees on every thread. Schedules are sampled by jitter and fresh-process repetition only.",
